@@ -131,6 +131,231 @@ fn cmd_occ() {
     }
 }
 
+
+// ---------------------------------------------------------------------------------------------
+// board / movegen / key correspondence
+
+fn kind_code(k: Kind) -> u64 {
+    (usize::from(k.get_color()) * 6 + usize::from(k)) as u64
+}
+fn okind_code(k: Option<Kind>) -> u64 {
+    k.map_or(0, |x| kind_code(x) + 1)
+}
+fn st(s: CastlingStatus) -> u64 {
+    u64::from(s == CastlingStatus::Available)
+}
+fn enc_ply(p: &Ply) -> String {
+    let r = p.castling_rights;
+    format!(
+        "[{},{},{},{},{},{},{},{}]",
+        u64::from(p.start.rank) * 8 + u64::from(p.start.file),
+        u64::from(p.dest.rank) * 8 + u64::from(p.dest.file),
+        kind_code(p.piece),
+        okind_code(p.captured_piece),
+        okind_code(p.promoted_to),
+        u64::from(p.is_castles) + 2 * u64::from(p.en_passant) + 4 * u64::from(p.is_double_pawn_push),
+        p.halfmove_clock,
+        st(r.white_kingside) + 2 * st(r.white_queenside) + 4 * st(r.black_kingside) + 8 * st(r.black_queenside)
+    )
+}
+fn enc_core(b: &Board) -> String {
+    let mut v: Vec<u64> = vec![
+        u64::from(b.current_turn == Color::Black),
+        u64::from(b.fullmove_counter),
+        b.verif_en_passant_file().map_or(0, |f| u64::from(f) + 1),
+    ];
+    v.extend_from_slice(&b.verif_bitboards());
+    v.push(b.zkey.verif_u64());
+    format!("[{}]", v.iter().map(|x| x.to_string()).collect::<Vec<_>>().join(","))
+}
+fn scratch_key(b: &Board) -> u64 {
+    crate::board::zkey::ZKey::from(b).verif_u64()
+}
+fn enc_state_k(b: &Board) -> String {
+    let core = enc_core(b);
+    let core = format!("{},{}]", &core[..core.len() - 1], scratch_key(b));
+    let hist: Vec<String> = b.verif_history().iter().map(enc_ply).collect();
+    let mut ph: Vec<String> = Vec::new();
+    for (k, c) in b.verif_position_history() {
+        for _ in 0..c {
+            ph.push(k.to_string());
+        }
+    }
+    format!("[{},[{}],[{}]]", core, hist.join(","), ph.join(","))
+}
+
+/// digest of a bracketed list of numbers: h = (h * 1000003 + x + 1) mod (2^61 - 1), h0 = 7
+fn digest(s: &str) -> u64 {
+    let mut h: u128 = 7;
+    for tok in s.split(|c: char| !c.is_ascii_digit()) {
+        if tok.is_empty() {
+            continue;
+        }
+        let x: u128 = tok.parse().unwrap();
+        h = (h * 1_000_003 + x + 1) % 2_305_843_009_213_693_951u128;
+    }
+    h as u64
+}
+
+fn node_of(b: &mut Board, deep: bool, full: bool) -> String {
+    let snapshot = b.clone();
+    let legal = b.get_legal_moves();
+    let query_pure = *b == snapshot;
+    let mut moves = Vec::new();
+    let mut nested = Vec::new();
+    let mut key_ok_all = true;
+    for m in &legal {
+        b.make_move(*m);
+        let core = enc_core(b);
+        let last = enc_ply(b.verif_history().last().unwrap());
+        let dig = if full { format!("{core},{last}") } else { digest(&format!("{core},{last}")).to_string() };
+        key_ok_all &= scratch_key(b) == b.zkey.verif_u64();
+        let chk = u64::from(b.is_in_check(b.current_turn));
+        b.unmake_move();
+        let restored = u64::from(*b == snapshot);
+        moves.push(format!("[{},{},{},{}]", enc_ply(m), dig, restored, chk));
+        if deep {
+            b.make_move(*m);
+            let snap1 = b.clone();
+            let l2 = b.get_legal_moves();
+            let mut ok = 1;
+            if let Some(m2) = l2.first() {
+                b.make_move(*m2);
+                b.unmake_move();
+                let ok1 = *b == snap1;
+                b.unmake_move();
+                ok = u64::from(ok1 && *b == snapshot);
+            } else {
+                b.unmake_move();
+            }
+            nested.push(ok.to_string());
+        }
+    }
+    let pseudo = b.get_all_moves().len();
+    format!(
+        "[{},[{}],{},[{},{},{},{}],[{}],[{},{}]]",
+        enc_state_k(b),
+        moves.join(","),
+        pseudo,
+        u64::from(b.is_in_check(Color::White)),
+        u64::from(b.is_in_check(Color::Black)),
+        b.verif_attacked_squares(Color::White),
+        b.verif_attacked_squares(Color::Black),
+        nested.join(","),
+        u64::from(query_pure),
+        u64::from(key_ok_all)
+    )
+}
+
+/// walk [deep]: stdin lines "FEN | m1 m2 ..." -> one JSON line per case:
+/// {"nodes":[...], "stuck": null | "notation"} or {"panic": "..."}
+fn cmd_walk(args: &[String]) {
+    let deep = args.iter().any(|a| a == "deep");
+    let full = args.iter().any(|a| a == "full");
+    let mut o = out();
+    for line in std::io::stdin().lock().lines() {
+        let line = line.unwrap();
+        if line.trim().is_empty() {
+            continue;
+        }
+        let (fen, moves) = match line.split_once('|') {
+            Some((f, m)) => (f.trim().to_string(), m.trim().to_string()),
+            None => (line.trim().to_string(), String::new()),
+        };
+        let r = catch_unwind(AssertUnwindSafe(|| {
+            let mut b = Board::from_fen(&fen);
+            let mut nodes = Vec::new();
+            let mut stuck = "null".to_string();
+            for m in moves.split_whitespace() {
+                nodes.push(node_of(&mut b, deep, full));
+                match b.find_move(m) {
+                    Ok(p) => b.make_move(p),
+                    Err(_) => {
+                        stuck = format!("\"{m}\"");
+                        break;
+                    }
+                }
+            }
+            if stuck == "null" {
+                nodes.push(node_of(&mut b, deep, full));
+            }
+            format!("{{\"nodes\":[{}],\"stuck\":{}}}", nodes.join(","), stuck)
+        }));
+        match r {
+            Ok(s) => writeln!(o, "{s}").unwrap(),
+            Err(_) => writeln!(o, "{{\"panic\":true}}").unwrap(),
+        }
+    }
+}
+
+struct Rng(u64);
+impl Rng {
+    fn next(&mut self) -> u64 {
+        // splitmix64
+        self.0 = self.0.wrapping_add(0x9E37_79B9_7F4A_7C15);
+        let mut z = self.0;
+        z = (z ^ (z >> 30)).wrapping_mul(0xBF58_476D_1CE4_E5B9);
+        z = (z ^ (z >> 27)).wrapping_mul(0x94D0_49BB_1331_11EB);
+        z ^ (z >> 31)
+    }
+    fn below(&mut self, n: usize) -> usize {
+        (self.next() % (n as u64)) as usize
+    }
+}
+
+/// randwalk <seed> <maxlen>: stdin lines of FENs -> "FEN | m1 m2 ..." random legal walks chosen
+/// with the engine's own move generator, biased towards captures, castling, double pushes,
+/// promotions, en passant and knight shuffles (so positions repeat).
+fn cmd_randwalk(args: &[String]) {
+    let seed: u64 = args.first().and_then(|s| s.parse().ok()).unwrap_or(1);
+    let maxlen: usize = args.get(1).and_then(|s| s.parse().ok()).unwrap_or(30);
+    let mut rng = Rng(seed);
+    let mut o = out();
+    for line in std::io::stdin().lock().lines() {
+        let fen = line.unwrap();
+        if fen.trim().is_empty() {
+            continue;
+        }
+        let r = catch_unwind(AssertUnwindSafe(|| {
+            let mut b = Board::from_fen(fen.trim());
+            let mut ms: Vec<String> = Vec::new();
+            let len = 1 + rng.below(maxlen);
+            let shuffle = rng.below(4) == 0;
+            for _ in 0..len {
+                let legal = b.get_legal_moves();
+                if legal.is_empty() {
+                    break;
+                }
+                let special: Vec<&Ply> = legal
+                    .iter()
+                    .filter(|m| {
+                        m.is_castles || m.en_passant || m.is_double_pawn_push || m.promoted_to.is_some()
+                            || m.captured_piece.is_some()
+                    })
+                    .collect();
+                let knights: Vec<&Ply> = legal
+                    .iter()
+                    .filter(|m| matches!(m.piece, Kind::Knight(_) | Kind::King(_) | Kind::Rook(_)) && m.captured_piece.is_none() && !m.is_castles)
+                    .collect();
+                let pick = if shuffle && !knights.is_empty() && rng.below(4) != 0 {
+                    *knights[rng.below(knights.len())]
+                } else if !special.is_empty() && rng.below(3) == 0 {
+                    *special[rng.below(special.len())]
+                } else {
+                    legal[rng.below(legal.len())]
+                };
+                ms.push(pick.to_notation());
+                b.make_move(pick);
+            }
+            ms.join(" ")
+        }));
+        match r {
+            Ok(s) => writeln!(o, "{} | {}", fen.trim(), s).unwrap(),
+            Err(_) => writeln!(o, "{} | PANIC", fen.trim()).unwrap(),
+        }
+    }
+}
+
 pub fn main(args: &[String]) {
     // keep panics quiet: they are reported as outcomes
     std::panic::set_hook(Box::new(|_| {}));
@@ -139,6 +364,8 @@ pub fn main(args: &[String]) {
         "consts" => cmd_consts(),
         "sliders" => cmd_sliders(),
         "occ" => cmd_occ(),
+        "walk" => cmd_walk(&args[1..]),
+        "randwalk" => cmd_randwalk(&args[1..]),
         _ => {
             eprintln!("unknown verif command: {cmd}");
             std::process::exit(2);
